@@ -623,6 +623,12 @@ func ruleUNDOJOURNAL(p *Program, rep *Report) {
 	loaders := staticReach(p, p.Func("txfile", "readAllocatorState"))
 	rollback := p.Method("txfile", "allocator", "Rollback")
 	rbReach := staticReach(p, rollback)
+	// the journal: every field of txAreaManageState
+	journalFields := map[*types.Var]bool{}
+	js := p.Struct("txfile", "txAreaManageState")
+	for i := 0; i < js.NumFields(); i++ {
+		journalFields[js.Field(i)] = true
+	}
 	// (a) metaTotal increments outside commit/rollback/loader must be journaled in the same function
 	for _, fn := range p.SrcFuncs() {
 		if fnPkgPath(fn) != modPath || commitFns[fn] || loaders[fn] || rbReach[fn] {
@@ -639,15 +645,18 @@ func ruleUNDOJOURNAL(p *Program, rep *Report) {
 				for _, bb := range fn.Blocks {
 					for _, i2 := range bb.Instrs {
 						if c, ok := i2.(ssa.CallInstruction); ok && len(c.Common().Args) > 0 {
-							if fa, ok := c.Common().Args[0].(*ssa.FieldAddr); ok && fieldOfAddr(fa) == v.fMoveToMeta {
+							if fa, ok := c.Common().Args[0].(*ssa.FieldAddr); ok && journalFields[fieldOfAddr(fa)] {
 								journaled = true
 							}
+						}
+						if st2, ok := i2.(*ssa.Store); ok && journalFields[addrField(st2.Addr)] {
+							journaled = true
 						}
 					}
 				}
 				key := funcName(fn) + "|metaTotal+="
 				if journaled {
-					rep.OK("UNDO-JOURNAL", key, p.InstrPos(ins), "journaled in txAreaManageState.moveToMeta")
+					rep.OK("UNDO-JOURNAL", key, p.InstrPos(ins), "journaled in txAreaManageState")
 				} else {
 					rep.Bad("UNDO-JOURNAL", key, p.InstrPos(ins), "allocator.metaTotal (and the meta freelist) grow before commit without an undo-journal entry: Rollback cannot take the pages out of the meta area again")
 				}
@@ -673,17 +682,21 @@ func ruleUNDOJOURNAL(p *Program, rep *Report) {
 	}
 	// (c) Rollback reads the journals and writes the classes back
 	eff := p.Effects().Of(rollback)
-	need := []struct {
+	type needT struct {
 		f     *types.Var
 		write bool
 		what  string
-	}{
-		{v.fMoveToMeta, false, "reads txAreaManageState.moveToMeta"},
+	}
+	need := []needT{}
+	for i := 0; i < js.NumFields(); i++ {
+		need = append(need, needT{js.Field(i), false, "reads txAreaManageState." + js.Field(i).Name()})
+	}
+	need = append(need, []needT{
 		{v.fAllocated, false, "reads txAllocArea.allocated"},
 		{v.fTxEndMarker, false, "reads the end-marker snapshot"},
 		{v.fEndMarker, true, "restores allocArea.endMarker"},
 		{v.fMetaTotal, true, "restores allocator.metaTotal"},
-	}
+	}...)
 	for _, n := range need {
 		m := eff.refs
 		if n.write {
